@@ -51,14 +51,14 @@ def run_op(op, state):
     raise ValueError(op)
 
 
-def child_main(rfd, wfd, proc_id, job, gate_root, seed_hex):
+def child_main(rfd, wfd, proc_id, job, gate_root, seed_hex, incarnation=0):
     """Never returns."""
     code = 0
     try:
         quiet_process()
         ensure_repo_on_path()
         chan = Channel(rfd, wfd)
-        seam = Seam(chan, gate_root, proc_id, seed_hex)
+        seam = Seam(chan, gate_root, proc_id, seed_hex, incarnation)
         seam.install()
         state = {}
         seam.gate("start")
